@@ -1,9 +1,60 @@
 import HedVerif.Driver.Util
+import HedVerif.Driver.Store
+import Std.Data.HashMap
 open Lean
 namespace HedVerif.Driver.C03
-open HedVerif HedVerif.Driver
+open HedVerif HedVerif.Driver HedVerif.Schema
 
-/-- requests `{"op":"c03.<name>", ...}` of property C03 (stub: none yet) -/
+/-- `HedTag(text, schema)` as far as lookup and forms go. -/
+def findJson (inst : Installed) (text : Str) : Json :=
+  let ns := namespaceOf text
+  if ns != inst.ns then jobj [("err", Json.str "HED_LIBRARY_UNMATCHED"), ("ns", jstr ns)]
+  else
+    let clean := text.drop ns.length
+    match find inst.vocab foldAscii clean with
+    | .found i rem =>
+      jobj [("node", jstr (joinSlash (inst.vocab.name i))), ("rem", jstr rem), ("ns", jstr ns),
+            ("short", jstr (shortTag inst.vocab ns i rem)), ("long", jstr (longTag inst.vocab ns i rem)),
+            ("base", jstr (inst.vocab.longName i)), ("short_base", jstr (inst.vocab.shortName i))]
+    | .noValidTag stop =>
+      jobj [("err", Json.str "NO_VALID_TAG_FOUND"), ("a", jnat ns.length), ("b", jnat (ns.length + stop))]
+    | .invalidParent a b x =>
+      jobj [("err", Json.str "INVALID_PARENT_NODE"), ("a", jnat (ns.length + a)), ("b", jnat (ns.length + b)),
+            ("expected", jstr (joinSlash (inst.vocab.name x)))]
+
+/-- evaluates `C03.WF` (`Functional table`): every key is bound to one entry only -/
+def functionalTable (t : Table) : Bool := Id.run do
+  let mut m : Std.HashMap String Nat := {}
+  for (k, i) in t do
+    let ks := String.ofList (joinSlash k)
+    match m.get? ks with
+    | some j => if j != i then return false
+    | none => m := m.insert ks i
+  return true
+
+def handleIO (op : String) (j : Json) : Option (IO (Except String Json)) :=
+  match op with
+  | "c03.schema" => some do
+      match (do
+        let name ← getString j "name"
+        let ns ← getStr j "ns"
+        let tags ← (← getArr j "tags").mapM asStr
+        pure (name, ns, tags) : Except String _) with
+      | .error e => pure (.error e)
+      | .ok (name, ns, tags) =>
+        let v := Vocab.build foldAscii (tags.map splitSlash)
+        schemaStore.modify fun st => (name, ⟨v, ns⟩) :: st.filter (·.1 != name)
+        pure (.ok (jobj [("tags", jnat tags.length), ("table", jnat v.table.length), ("wf", jbool (functionalTable v.table)),
+                         ("dups", jarr (v.dups.map fun i => jstr (joinSlash (v.name i))))]))
+  | "c03.find" => some do
+      match (do pure (← getString j "schema", ← getStr j "text") : Except String _) with
+      | .error e => pure (.error e)
+      | .ok (name, text) =>
+        match ← getSchema name with
+        | none => pure (.error s!"schema {name} not installed")
+        | some inst => pure (.ok (findJson inst text))
+  | _ => none
+
 def handle (_op : String) (_j : Json) : Option (Except String Json) := none
 
 end HedVerif.Driver.C03
